@@ -122,6 +122,7 @@ func (d *MsgPipeline) Start(ctx context.Context, msgMeta *module.MsgMetadata, ma
 		d:                  d,
 		rcptModifiersState: make(map[*rcptBlock]module.ModifierState),
 		deliveries:         make(map[module.DeliveryTarget]*delivery),
+		originalRcpts:      make(map[string]string),
 		msgMeta:            msgMeta,
 		log:                target.DeliveryLogger(d.Log, msgMeta),
 	}
@@ -276,9 +277,18 @@ type msgpipelineDelivery struct {
 	sourceAddr  string
 	sourceBlock sourceBlock
 
-	deliveries  map[module.DeliveryTarget]*delivery
-	msgMeta     *module.MsgMetadata
-	checkRunner *checkRunner
+	deliveries map[module.DeliveryTarget]*delivery
+	// Effective recipient -> recipient as it was passed to AddRcpt of this
+	// pipeline, used to report per-recipient statuses. It is not possible to
+	// use msgMeta.OriginalRcpts for that: it is shared with nested pipelines
+	// (reroute, pipeline used as a target) which get the same MsgMetadata
+	// object, so a status would be translated once per nesting level and end
+	// up under a wrong address if the address it is translated to happens to
+	// be a rewriting result too (a -> b, b -> c with both a and b being
+	// recipients of the message).
+	originalRcpts map[string]string
+	msgMeta       *module.MsgMetadata
+	checkRunner   *checkRunner
 }
 
 func (dd *msgpipelineDelivery) AddRcpt(ctx context.Context, to string, opts smtp.RcptOptions) error {
@@ -351,6 +361,7 @@ func (dd *msgpipelineDelivery) AddRcpt(ctx context.Context, to string, opts smtp
 
 			if originalTo != to {
 				dd.msgMeta.OriginalRcpts[to] = originalTo
+				dd.originalRcpts[to] = originalTo
 			}
 
 			for _, tgt := range rcptBlock.targets {
@@ -503,7 +514,7 @@ func (dd *msgpipelineDelivery) BodyNonAtomic(ctx context.Context, c module.Statu
 		partDelivery, ok := delivery.Delivery.(module.PartialDelivery)
 		if ok {
 			partDelivery.BodyNonAtomic(ctx, statusCollector{
-				originalRcpts: dd.msgMeta.OriginalRcpts,
+				originalRcpts: dd.originalRcpts,
 				wrapped:       c,
 			}, header, body)
 			continue
